@@ -155,6 +155,13 @@ def csv_shapes():
                         out.append({'kind': 'csv', 'cmd': cmd, 'settings': st, 'bak': bak, 'rules': rules,
                                     'csv_has_rules': hasrules,
                                     'id': f"csv-{cmd}-{st}-bak{int(bak)}-rules{int(rules)}-has{int(hasrules)}"})
+    # settings.yaml names a legacy CSV explicitly (merchants_file: config/<name>.csv): tally loads it as configured and
+    # `tally up` must never start the CSV migration for it.  Outside the Coq model (load_config's format tag is not
+    # modelled): run under the shim and judged by the direct oracle; the expected effect trace of `up` is empty.
+    for cmd in ('up', 'init'):
+        for name in ('merchant_categories.csv', 'my_rules.csv'):
+            out.append({'kind': 'csv', 'cmd': cmd, 'settings': 'csvkey', 'csv_name': name, 'bak': False, 'rules': False,
+                        'csv_has_rules': True, 'modelled': False, 'id': f"csvkey-{cmd}-{name.split('.')[0]}"})
     return out
 
 
@@ -166,6 +173,14 @@ def layout_shapes():
                 out.append({'kind': 'layout', 'cmd': 'update', 'data': data, 'output': output, 'tally': bool(t),
                             'tally_config': bool(tc), 'tally_data': bool(td),
                             'id': f"layout-data{int(data)}-out{int(output)}-t{t}-tc{tc}-td{td}"})
+    # ./tally on another file system: rename gives EXDEV, shutil.move copies the tree file by file and then removes
+    # the source - the move is many steps, each a crash / fault point (both ./config and a partial ./tally/config
+    # exist meanwhile).  Outside the Coq model (its Move is one step): judged by the direct oracle.
+    for data in (True, False):
+        for t in (0, 1):
+            out.append({'kind': 'layout', 'cmd': 'update', 'data': data, 'output': False, 'tally': bool(t),
+                        'tally_config': False, 'tally_data': False, 'exdev': True, 'modelled': False,
+                        'id': f"layoutx-data{int(data)}-t{t}"})
     return out
 
 
@@ -181,9 +196,11 @@ def build_shape(sh, tier, orc):
     st = orc['starters']
     if sh['kind'] == 'csv':
         c0 = C_RULES if sh['csv_has_rules'] else C_EMPTY
-        s0 = {'absent': None, 'nosub': S_NOSUB, 'sub': S_SUB}[sh['settings']]
+        csv_rel = 'config/' + sh.get('csv_name', 'merchant_categories.csv')
+        s0 = {'absent': None, 'nosub': S_NOSUB, 'sub': S_SUB, 'csvkey': S_NOSUB + f'merchants_file: {csv_rel}\n'}[sh['settings']]
         conv = orc['csvs'][c0]['conv']
-        tree.update({'config': None, 'data': None, 'config/merchant_categories.csv': c0, 'data/t.csv': D_STMT})
+        tree.update({'config': None, 'data': None, csv_rel: c0, 'data/t.csv': D_STMT})
+        info['csv_rel'] = csv_rel
         tc = tok.add('c', c0)
         ts = tok.add('s', s0) if s0 is not None else None
         tb = tr = None
@@ -536,8 +553,8 @@ def signature(info, sc, clause, detail):
     t1 = sc['tree']
     if sh['kind'] == 'csv':
         c0, conv, s0 = info['c0'], info['conv'], info['s0']
-        csv = t1.get('config/merchant_categories.csv')
-        bak = t1.get('config/merchant_categories.csv.bak')
+        csv = t1.get(info['csv_rel'])
+        bak = t1.get(info['csv_rel'] + '.bak')
         rules = t1.get('config/merchants.rules')
         st = t1.get('config/settings.yaml')
         moved = csv is None and bak == c0
@@ -551,6 +568,12 @@ def signature(info, sc, clause, detail):
         appended = st[len(s0):] if (st is not None and s0 is not None and st.startswith(s0)) else None
         if sh['cmd'] == 'init' and appended is not None and appended.endswith(V1 + V2):
             appended = appended[:-len(V1 + V2)]
+        if sh['settings'] == 'csvkey':
+            # settings.yaml names the CSV explicitly: only `tally init` (which looks for merchant_categories.csv by
+            # name, whatever settings say) migrates it on the unchanged tree
+            if sh['cmd'] == 'init' and moved and rules == conv and appended == '':
+                return 'C15/init-migrates-explicitly-configured-csv-key-left-dangling'
+            return f"C15/explicit-csv-key-unclassified-{clause}-{sc['mode']}"
         if moved and rules == conv and s0 is not None and 'merchants_file:' in s0 and appended == '':
             return 'C15/settings-mentions-merchants_file-never-pointed'
         if moved and rules == conv and appended is not None and (L1 + L2).startswith(appended) and appended != L1 + L2:
@@ -567,6 +590,14 @@ def signature(info, sc, clause, detail):
     # layout
     if clause == 'lost':
         return 'C15/lost:' + detail
+    if sh.get('exdev'):
+        # the copy fallback of a cross-device move was interrupted; on the unchanged tree ./config still wins, but
+        # re-running `tally update` moves ./config INTO the partial ./tally/config left behind
+        if 'tally/config/config' in t1 and sc['mode'] == 'rerun':
+            return 'C15/layout-cross-device-copy-interrupted-rerun-nests'
+        if 'tally/config/settings.yaml' in t1 and 'config' not in t1 and 'data/t.csv' in t1:
+            return 'C15/layout-config-moved-data-left-behind'     # (data/ not yet, or only partly, copied)
+        return f"C15/cross-device-unclassified-{clause}-{sc['mode']}"
     if 'tally/config/config' in t1:
         return 'C15/layout-existing-tally-config-nests-old-config'
     if 'tally/data/data' in t1:
@@ -605,8 +636,11 @@ def direct_oracle(info, res):
         else:
             if not (layout_same(info, o1) or layout_same(info, o2)):
                 bad.append((i, 'budget-does-not-classify-as-before-even-after-rerun', None, signature(info, sc, 'rules', None)))
-            elif (empty_in_force(o1) or empty_in_force(o2)) and any(v == R_USER for v in t1.values()):
+            elif empty_in_force(o1) and any(v == R_USER for v in t1.values()):
                 bad.append((i, 'empty-rule-set-while-rules-on-disk', None, signature(info, sc, 'stranded', None)))
+            elif empty_in_force(o2) and any(v == R_USER for v in t2.values()):
+                bad.append((i, 'empty-rule-set-while-rules-on-disk-after-rerun', None,
+                            signature(info, dict(sc, tree=t2, mode='rerun'), 'stranded', None)))
     return bad
 
 
@@ -796,6 +830,18 @@ def verdict_bits(info, res, model, bad):
     return out
 
 
+def unmodelled_expectation(info, res):
+    """shapes outside the Coq model: the little that is pinned about their effect trace"""
+    sh = info['shape']
+    tr = res['scenarios'][0]['first'].get('trace') or []
+    if sh.get('settings') == 'csvkey' and sh['cmd'] == 'up' and tr:
+        return [{'what': '`tally up --migrate` performs file-system effects on a budget whose settings.yaml names its '
+                         'merchants file explicitly (expected: loaded as configured, no migration)', 'real_ops': tr[:12]}]
+    if sh.get('exdev') and not any(e[0] == 'CP' for e in tr):
+        return [{'what': 'cross-device move did not go through the copy fallback (shim out of date?)', 'real_ops': tr[:12]}]
+    return []
+
+
 def sc_id(sc):
     return {'mode': sc['mode'], 'k': sc.get('k', -1), 'n': sc.get('n', 0)}
 
@@ -812,7 +858,7 @@ def prepare(tier, shapes):
         info = build_shape(sh, tier, orc)
         info['orc'] = orc
         infos.append(info)
-    facts, newrules = get_text_facts(infos)
+    facts, newrules = get_text_facts([i for i in infos if i['shape'].get('modelled', True)])
     return orc, infos, facts, newrules
 
 
@@ -823,7 +869,7 @@ def make_job(info, scenarios='auto', keep=False, root=None):
         cuts[tok.interp(tok.lab[lab])] = tok.offsets(lab)
     sh = info['shape']
     return {'id': sh['id'], 'root': root or os.path.join(SCR, sh['id']), 'tree': info['tree'], 'cmd': sh['cmd'],
-            'scenarios': scenarios, 'cli': True, 'cuts': cuts, 'keep': keep, 'all_cuts': info['tok'].tier == 'thorough',
+            'scenarios': scenarios, 'cli': True, 'cuts': cuts, 'keep': keep, 'exdev': bool(sh.get('exdev')), 'all_cuts': info['tok'].tier == 'thorough',
             'weight': 3 if sh['kind'] == 'csv' and sh['cmd'] == 'init' else 2}
 
 
@@ -840,7 +886,9 @@ def finish_info(info, res, refs):
         info['ref_cls'] = up.get('classification') if up.get('exit') == 0 else None
         # the budget classifies with the user's CSV before the migration (or has no settings yet: init)
         i0 = res['initial']
-        if sh['settings'] == 'absent':
+        if sh['settings'] == 'csvkey':
+            info['precondition'] = 'error' not in i0 and i0.get('file') == info['csv_rel'] and i0.get('rules') == info['ref_rules'][0]
+        elif sh['settings'] == 'absent':
             info['precondition'] = sh['cmd'] == 'init' and not sh['rules'] and sh['csv_has_rules']
         else:
             info['precondition'] = 'error' not in i0 and i0.get('format') == 'csv'
@@ -857,14 +905,17 @@ def evaluate(run, tier, shapes, report=True):
     refs = run_impl(IMPL, {'op': 'oracle', 'texts': {}, 'csvs': {}, 'refs': refs_req,
                            'workdir': os.path.join(SCR, 'oracle')})['refs'] if refs_req else {}
     results = run_impl_jobs([make_job(i) for i in infos])
-    model, err = run_model(infos, facts, newrules)
+    model, err = run_model([i for i in infos if i['shape'].get('modelled', True)], facts, newrules)
     out = {'infos': infos, 'results': results, 'model': model, 'model_error': err, 'bad': {}, 'mism': {}, 'bits': {}}
     for info in infos:
         sid = info['shape']['id']
         res = results[sid]
         finish_info(info, res, refs)
         out['bad'][sid] = direct_oracle(info, res)
-        if model is not None:
+        if not info['shape'].get('modelled', True):
+            out['mism'][sid] = unmodelled_expectation(info, res)
+            out['bits'][sid] = []
+        elif model is not None:
             out['mism'][sid] = compare(info, res, model.get(sid))
             out['bits'][sid] = [] if out['mism'][sid] else verdict_bits(info, res, model.get(sid), out['bad'][sid])
     return out
